@@ -8,7 +8,7 @@ CONSTANTS
   Lens = {3, 4, 5, 7, 8}
   Tails = {0, 1, 2, 3, 7}
   MaxChunks = 3
-  CallSizes = {0, 1, 2, 3, 4, 9}
+  CallSizes = {0, 1, 2, 3, 9}
   FullProbe = TRUE
 INVARIANT MCInvs
 CHECK_DEADLOCK FALSE
